@@ -477,6 +477,55 @@ def gen() -> None:
                                "user": calls["parts.username"], "password": calls["parts.password"]},
                      keep={**{k: "".join(map(chr, v)) for k, v in tables.items()}, "password": "".join(map(chr, tables["user"]))},
                      gcu_safe=gcu_safe)
+    # ---- statement skeletons: everything the model / the oracles stand for that is not translated above is pinned as
+    # normalised source text (ast.unparse; layout, comments and docstrings do not matter), with holes where the translated
+    # constants and conditions sit.  tools/pins/c15_urls.txt is the source coq/C15/*Model.v were written against.
+    def _kw_holes(fn_, prefix):
+        return {ast.unparse(kw.value): "<SAFE-STRING>" for _, _, kw in _quote_calls(fn_)}
+    gh_src = px.find_def(sutl, "get_host")
+    gh_chain = [st for st in _body(gh_src) if isinstance(st, ast.If) and "endswith" in ast.unparse(st.test)]
+    gh_holes = {}
+    node_ = gh_chain[0] if len(gh_chain) == 1 else None
+    while node_ is not None:      # the translated default-port rules: tests and slices are holes
+        gh_holes[ast.unparse(node_.test)] = "<DEFAULT-PORT-TEST>"
+        gh_holes[ast.unparse(node_.body[0])] = "host = host[:-<K>]"
+        node_ = node_.orelse[0] if (len(node_.orelse) == 1 and isinstance(node_.orelse[0], ast.If)) else None
+    wsgi_m = px.load("wsgi.py")
+    sreq = px.find_class(px.load("sansio/request.py"), "Request")
+    wreq = px.find_class(px.load("wrappers/request.py"), "Request")
+    gcu_src = px.find_def(sutl, "get_current_url")
+    ge = px.find_def(eb, "get_environ")
+    ge_bits = [ast.unparse(x) for x in ast.walk(ge)
+               if (isinstance(x, ast.FunctionDef) and x.name == "_path_encode")
+               or (isinstance(x, ast.Dict) and any(isinstance(k, ast.Constant) and k.value == "PATH_INFO" for k in x.keys))
+               or (isinstance(x, ast.Assign) and ast.unparse(x.targets[0]) == "raw_uri")]
+    eb_props = [n for n in eb.body if isinstance(n, ast.FunctionDef)
+                and n.name in ("base_url", "query_string", "args", "server_name", "server_port", "_make_base_url")]
+    sections = [
+        ("urls._codec_error_url_quote", px.skeleton(px.find_def(urls, "_codec_error_url_quote"))),
+        ("urls._make_unquote_part", px.skeleton(px.find_def(urls, "_make_unquote_part"))),
+        ("urls.uri_to_iri", px.skeleton(u2i)),
+        ("urls.iri_to_uri", px.skeleton(i2u, _kw_holes(i2u, "I2U"))),
+        ("urls._decode_idna", px.skeleton(px.find_def(urls, "_decode_idna"))),
+        ("_internal._wsgi_decoding_dance", px.skeleton(px.find_def(intl, "_wsgi_decoding_dance"))),
+        ("_internal._wsgi_encoding_dance", px.skeleton(px.find_def(intl, "_wsgi_encoding_dance"))),
+        ("sansio.utils.get_current_url", px.skeleton(gcu_src, _kw_holes(gcu_src, "GCU"))),
+        ("sansio.utils.get_host", px.skeleton(gh_src, gh_holes)),
+        ("wsgi.get_current_url", px.skeleton(px.find_def(wsgi_m, "get_current_url"))),
+        ("wsgi._get_server", px.skeleton(px.find_def(wsgi_m, "_get_server"))),
+        ("wsgi.get_host", px.skeleton(px.find_def(wsgi_m, "get_host"))),
+        ("middleware.dispatcher.DispatcherMiddleware.__init__", px.skeleton(px.find_def(cls, "__init__"))),
+        ("wrappers.request.Request.__init__", px.skeleton(px.find_def(wreq, "__init__"))),
+    ]
+    for name in ("__init__", "args", "full_path", "url", "base_url", "root_url", "host_url", "host"):
+        sections.append((f"sansio.request.Request.{name}", px.skeleton(px.find_method(sreq, name))))
+    sections.append(("test.EnvironBuilder.__init__ (URL part)", "\n".join(eb_init)))
+    sections.append(("test.EnvironBuilder.get_environ (URL part)", "\n".join(ge_bits)))
+    for n in eb_props:
+        sections.append((f"test.EnvironBuilder.{n.name} [{','.join(ast.unparse(d) for d in n.decorator_list)}]", px.skeleton(n)))
+    px.check_pin("C15", "c15_urls.txt", "".join(f"## {n}\n{t}\n" for n, t in sections),
+                 "the source the C15 models stand for (urls, dance, get_current_url / get_host, Request URL properties, EnvironBuilder URL handling)")
+
     t = ("(* GENERATED by tools/c15.py from urls.py, sansio/utils.py, _internal.py, middleware/dispatcher.py on every run - do not edit *)\n"
          "From Wz Require Import lib.Bytes.\nOpen Scope N_scope.\n\n")
     t += "(* iri_to_uri: safe= of the quote call on each component *)\n"
@@ -1257,6 +1306,12 @@ def main(chk: Check) -> None:
         "whole URLs are split and reassembled by the interpreter around the modelled component functions",
         "UTF-8 / latin-1 codec models lib/Utf8.v",
         "extraction ExtrOcamlBasic + tools/conv.ml + coq/C15/driver.ml, OCaml 4.13.1",
+        "statement pin tools/pins/c15_urls.txt: _codec_error_url_quote, _make_unquote_part, uri_to_iri, iri_to_uri, _decode_idna, the two dance "
+        "functions, sansio get_current_url / get_host, wsgi get_current_url / _get_server / get_host, DispatcherMiddleware.__init__, "
+        "wrappers Request.__init__, sansio Request.__init__ / args / full_path / url / base_url / root_url / host_url / host, and the URL part of "
+        "EnvironBuilder (__init__, get_environ, base_url, query_string, args, server_name, server_port), with holes at the translated constants",
+        "validated differentially only (CPython library code, not werkzeug code, no pin): urllib.parse.quote / unquote / unquote_to_bytes / "
+        "urlsplit / urlunsplit / parse_qsl, the idna and utf-8 / latin-1 codecs, codecs.register_error; werkzeug.urls._urlencode is C02's",
         "EnvironBuilder: urlsplit of the path argument and of iri_to_uri(base_url), IDNA, SERVER_NAME / SERVER_PORT and the non-URL environ "
         "entries are outside the builder model (exercised end to end); the builder statements the model was written for are pinned",
         "C02's urlencode / parse_qsl model and its lemmas urlencoded_roundtrip / urlencode_ascii (coq/C02/Model.v, Proofs.v) are imported, not re-modelled",
